@@ -218,16 +218,16 @@ Section Results.
   Qed.
 
   Theorem coarse_inv_every_history_with_kills : forall mode t0 (kops : list kop),
-    0 < t0 -> confined_khistory (init_world mode t0) kops ->
+    confined_khistory (init_world mode t0) kops ->
     coarse_inv (fold_left apply_kop kops (init_world mode t0)).
   Proof.
-    intros mode t0 kops _ Hh. apply coarse_inv_khistory; [|exact Hh].
+    intros mode t0 kops Hh. apply coarse_inv_khistory; [|exact Hh].
     apply (CoarseBuildProofs.coarse_inv_init_main T teqb hc).
   Qed.
 
   (* after any such history a confined build does not depend on the saved table *)
   Theorem c18_every_history_with_kills : forall mode t0 (kops : list kop) goal,
-    0 < t0 -> confined_khistory (init_world mode t0) kops ->
+    confined_khistory (init_world mode t0) kops ->
     build_confined T (fold_left apply_kop kops (init_world mode t0)) goal ->
     let w := fold_left apply_kop kops (init_world mode t0) in
     let o1 := build w RULES_PATH goal in
@@ -237,18 +237,18 @@ Section Results.
     rd_hist (w_rd (o_world o1)) = rd_hist (w_rd (o_world o2)) /\
     o_commands o1 = o_commands o2 /\ o_status o1 = o_status o2.
   Proof.
-    intros mode t0 kops goal Ht0 Hh Hc. apply coarse_inv_next_build_table_irrelevant; [|exact Hc].
+    intros mode t0 kops goal Hh Hc. apply coarse_inv_next_build_table_irrelevant; [|exact Hc].
     apply coarse_inv_every_history_with_kills; assumption.
   Qed.
 
   (* ... and every crash point of the NEXT build or clean satisfies pre_inv again *)
   Theorem coarse_crash_point_after_kills : forall mode t0 (kops : list kop) goal k,
-    0 < t0 -> confined_khistory (init_world mode t0) kops ->
+    confined_khistory (init_world mode t0) kops ->
     build_confined T (fold_left apply_kop kops (init_world mode t0)) goal ->
     let w := fold_left apply_kop kops (init_world mode t0) in
     pre_inv (run_acts (firstn k (build_acts w RULES_PATH goal)) w).
   Proof.
-    intros mode t0 kops goal k Ht0 Hh Hc w. apply coarse_build_crash_point_at; [|exact Hc].
+    intros mode t0 kops goal k Hh Hc w. apply coarse_build_crash_point_at; [|exact Hc].
     apply coarse_inv_every_history_with_kills; assumption.
   Qed.
 
@@ -358,12 +358,12 @@ Theorem coarse_clean_crash_history_goes_on_sym : forall (w : world sym) goal pre
 Proof. exact (coarse_clean_crash_history_goes_on sym sym_eqb SContent SList SRule sym_eqb_spec). Qed.
 
 Theorem coarse_inv_every_history_with_kills_sym : forall mode t0 (kops : list (kop sym)),
-  0 < t0 -> confined_khistory_sym (init_world mode t0) kops ->
+  confined_khistory_sym (init_world mode t0) kops ->
   coarse_inv_sym (fold_left apply_kop_sym kops (init_world mode t0)).
 Proof. exact (coarse_inv_every_history_with_kills sym sym_eqb SContent SList SRule sym_eqb_spec). Qed.
 
 Theorem c18_every_history_with_kills_sym : forall mode t0 (kops : list (kop sym)) goal,
-  0 < t0 -> confined_khistory_sym (init_world mode t0) kops ->
+  confined_khistory_sym (init_world mode t0) kops ->
   build_confined sym (fold_left apply_kop_sym kops (init_world mode t0)) goal ->
   let w := fold_left apply_kop_sym kops (init_world mode t0) in
   let o1 := build_sym w RULES_PATH goal in
@@ -375,7 +375,7 @@ Theorem c18_every_history_with_kills_sym : forall mode t0 (kops : list (kop sym)
 Proof. exact (c18_every_history_with_kills sym sym_eqb SContent SList SRule sym_eqb_spec). Qed.
 
 Theorem coarse_crash_point_after_kills_sym : forall mode t0 (kops : list (kop sym)) goal k,
-  0 < t0 -> confined_khistory_sym (init_world mode t0) kops ->
+  confined_khistory_sym (init_world mode t0) kops ->
   build_confined sym (fold_left apply_kop_sym kops (init_world mode t0)) goal ->
   let w := fold_left apply_kop_sym kops (init_world mode t0) in
   pre_inv_sym (run_acts_sym (firstn k (build_acts_sym w RULES_PATH goal)) w).
@@ -536,7 +536,7 @@ Proof.
 Qed.
 
 Example cc_kops_inv : coarse_inv_sym (fold_left apply_kop_sym cc_kops (init_world Coarse 1)).
-Proof. apply coarse_inv_every_history_with_kills_sym; [reflexivity | exact cc_kops_confined]. Qed.
+Proof. apply coarse_inv_every_history_with_kills_sym. exact cc_kops_confined. Qed.
 
 Example cc_kops_values :
   let w := fold_left apply_kop_sym cc_kops (init_world Coarse 1) in
